@@ -397,13 +397,15 @@ def expand_plan(p, n, olen):
 
 
 def class_of_mismatch(one, o, exempt):
+    """Which components of the observation differ: 'ret', 'total_in', 'out' joined by '+', or None."""
+    d = []
     if o["ret"] != one["ret"]:
-        return "ret"
+        d.append("ret")
     if o["tin"] != one["tin"]:
-        return "total_in"
+        d.append("total_in")
     if not exempt and (o["olen"] != one["olen"] or o["dig"] != one["dig"]):
-        return "out"
-    return None
+        d.append("out")
+    return "+".join(d) or None
 
 
 def run_subject(sub, budget):
